@@ -8,6 +8,7 @@ CHECKS={
  "C01":("model_checking","T","explicit-state BFS by re-execution of the real tower (histories over register/add/mine/poll/reorg/restart/external broadcast, two users, shared locators, garbled/refused/2-slot blobs, dispute+penalty in one block, 6-block window family); per-block monitor: every breach of a held appointment must have its penalty submitted (or provably known to the node) while that block is handled, and the outcome must match the node's verdict","4.2, 5/C01"),
  "C02":("model_checking","T","same exploration as C01 plus short-subscription configuration; every sendrawtransaction of every step must be justified by a tracked/triggered appointment (disputes only right after a disconnect), no tracker row without node evidence","5/C02"),
  "C04":("model_checking","T","exhaustive parameter grid (confirmation delay x reorg depth x replacement kind x single/multi-block poll, then the road past 100 confirmations observed block by block) plus BFS from tracker seeds; oracle: re-submission after disconnect, periodic rebroadcast (any 7 heights), confirmed rows equal active-chain truth, completion+refund exactly at confirmation+100, drop without refund only on node rejection while unconfirmed","5/C04"),
+ "C06":("model_checking","T","BFS over two users sharing locators, short subscriptions (expired users), an unregistered key; at every distinct state the forgery matrix is applied: signatures of the right key over every other request's message (other request kind, other locator, other to_self_delay, other appointment, empty), requests by unregistered/expired keys, every truncation and spread single-character substitutions of valid signatures, non-zbase32 text; each must answer Unauthenticated (with the expiry for expired users) and leave tables and memory untouched; isolation is the reference-model comparison keyed by (user, locator) after every step","5/C06"),
  "C07":("model_checking","T","exhaustive sweep of the slot formula for every blob length 0..4 MiB plus BFS over registrations/renewals/submissions/replacements with blob sizes on both sides of slot boundaries, triggers (accepted/invalid/refused), completions, restarts; invariant granted = available + held + forfeited after every step, memory = disk = wire","5/C07"),
  "C08":("model_checking","T","BFS over submissions/replacements (3 to_self_delay values, 5 blob kinds), renewals, requests between block and poll, reorgs; every receipt is verified with the client's own verifier, start_block = tower height, read-back is byte-for-byte the last accepted version","5/C08"),
  "C09":("model_checking","T","BFS over every (slots,duration,grace) configuration of a small grid including 0 and 1, registrations/renewals of two users, single and multi-block polls, reorgs across expiry and purge heights; oracle: usability exactly below expiry, purge exactly at expiry+grace, renewals add one duration","5/C09"),
